@@ -227,6 +227,8 @@ def _signature_filter(ck: Check, prog: Program) -> None:
     from .c17 import excluded_names_not_lazy
     excluded_names_not_lazy(ck, prog)
     _json_type_overrides(ck, prog)
+    _pydantic_fields(ck, prog)
+    _returns_bound_arguments(ck, prog)
 
 
 JSON_TYPE_CLASSES = {'array': {'list', 'tuple'}, 'object': {'dict'}, 'string': {'str'}, 'integer': {'int'}, 'number': {'int', 'float'},
@@ -264,6 +266,132 @@ def _json_type_overrides(ck: Check, prog: Program) -> None:
                                f'type satisfy it (a JSON string is a Sequence / Iterable / Sized), so a call that does not conform to the '
                                f'schema is executed')
     ck.require('VALID-SUBJECT', 'JSON type overrides of the jsonschema validator', n, 1)
+
+
+def _pydantic_fields(ck: Check, prog: Program) -> None:
+    """COERCE-SWITCH (the model the type validator checks against is the signature): build_validation_schema gives every parameter a
+    field (annotation, default): the annotation when there is one, Any otherwise — wrapped as Dict[str, ·] for **kwargs and List[·]
+    for *args; the default when there is one, `...` (required) otherwise, None for the variadic kinds; selected by the parameter kind;
+    and returns the table it filled."""
+    from ..flow import Flow
+    ci = prog.cls('pjrpc.server.validators.pydantic.PydanticValidator')
+    f = ci.methods.get('build_validation_schema')
+    if f is None:
+        raise AnalysisError('PydanticValidator.build_validation_schema not found')
+    ck.functions.add(f.qualname)
+    cfg = CFG(f, prog)
+    fl = Flow(cfg)
+    heads = [n for n in cfg.nodes if n.kind == 'next']
+    if len(heads) != 1 or not isinstance(heads[0].ast.target, ast.Name):
+        raise AnalysisError(f'{f.qualname}: parameter loop not recognised')
+    pv = heads[0].ast.target.id
+    problems: List[Tuple[int, str]] = []
+    stores = [n for n in cfg.stmt_nodes() if isinstance(n.ast, ast.Assign) and isinstance(n.ast.targets[0], ast.Subscript)
+              and norm(n.ast.targets[0].slice) == f'{pv}.name']
+    table = {dotted(n.ast.targets[0].value) for n in stores}
+    seen_kinds = set()
+    for n in stores:
+        kind = 'other'
+        for g in guard_edges(cfg, n):
+            t = norm(g.src.ast)
+            for k in ('VAR_KEYWORD', 'VAR_POSITIONAL'):
+                if t in (f'{pv}.kind is inspect.Parameter.{k}', f'{pv}.kind == inspect.Parameter.{k}') and g.label == 'T':
+                    kind = k
+                elif t in (f'{pv}.kind is not inspect.Parameter.{k}', f'{pv}.kind != inspect.Parameter.{k}') and g.label == 'F':
+                    kind = k
+        seen_kinds.add(kind)
+        v = n.ast.value
+        vals = [al.expr for al in fl.alts(n, v)]
+        if not (len(vals) == 1 and isinstance(vals[0], ast.Tuple) and len(vals[0].elts) == 2):
+            problems.append((n.line, f'`{norm(v)[:60]}` is not an (annotation, default) pair'))
+            continue
+        ann_e, def_e = vals[0].elts
+
+        def arms(e: ast.expr):
+            """[(expr, {(test text): polarity})]"""
+            out = []
+            for al in fl.alts(n, e):
+                cond = {}
+                for c_, pol in al.guards:
+                    cond[norm(c_)] = pol
+                out.append((al.expr, cond))
+            return out
+        has_ann, has_def = f'{pv}.annotation is not inspect.Parameter.empty', f'{pv}.default is not inspect.Parameter.empty'
+        no_ann, no_def = f'{pv}.annotation is inspect.Parameter.empty', f'{pv}.default is inspect.Parameter.empty'
+
+        def present(cond, yes, no):
+            if yes in cond:
+                return cond[yes]
+            if no in cond:
+                return not cond[no]
+            return None
+        for e, cond in arms(ann_e):
+            pr = present(cond, has_ann, no_ann)
+            uses = any(norm(x) == f'{pv}.annotation' for x in ast.walk(e))
+            if pr is True:
+                want = {'other': f'{pv}.annotation', 'VAR_KEYWORD': f'Optional[Dict[str, {pv}.annotation]]', 'VAR_POSITIONAL': f'Optional[List[{pv}.annotation]]'}[kind]
+                if norm(e) != want:
+                    problems.append((n.line, f'{kind}: the field type for an annotated parameter is `{norm(e)[:50]}`, expected `{want}`'))
+            elif pr is False:
+                if norm(e) != 'Any' or uses:
+                    problems.append((n.line, f'{kind}: the field type for an un-annotated parameter is `{norm(e)[:50]}`, expected Any'))
+            else:
+                problems.append((n.line, f'{kind}: the field type `{norm(e)[:50]}` is chosen without testing whether the parameter is annotated'))
+        for e, cond in arms(def_e):
+            pr = present(cond, has_def, no_def)
+            if pr is True:
+                if norm(e) != f'{pv}.default':
+                    problems.append((n.line, f'{kind}: the field default for a parameter with a default is `{norm(e)[:40]}`, expected `{pv}.default`'))
+            elif pr is False:
+                want_d = '...' if kind == 'other' else 'None'
+                if norm(e) != want_d:
+                    problems.append((n.line, f'{kind}: a parameter without default gets `{norm(e)[:40]}`, expected `{want_d}` '
+                                     f'({"required" if kind == "other" else "absent variadic arguments"})'))
+            else:
+                problems.append((n.line, f'{kind}: the field default `{norm(e)[:40]}` is chosen without testing whether the parameter has a default'))
+    if seen_kinds != {'other', 'VAR_KEYWORD', 'VAR_POSITIONAL'}:
+        problems.append((f.node.lineno, f'fields are defined for the kinds {sorted(seen_kinds)}; expected one definition each for **kwargs, *args and ordinary parameters'))
+    rets = [n for n in cfg.stmt_nodes() if isinstance(n.ast, ast.Return)]
+    if not rets or any(n.ast.value is None or dotted(n.ast.value) not in table for n in rets):
+        problems.append((f.node.lineno, 'build_validation_schema does not return the table of field definitions it filled'))
+    ck.ob('COERCE-SWITCH', 'PydanticValidator.build_validation_schema: one (annotation-or-Any, default-or-required) field per parameter, by kind', not problems)
+    for line, msg in problems:
+        ck.finding('COERCE-SWITCH', f.qualname, msg[:70], f.module.rel, line,
+                   msg + ': the pydantic model then accepts calls the annotations forbid or refuses calls they allow (-32602 iff the arguments '
+                   'do not satisfy the annotations)')
+
+
+def _returns_bound_arguments(ck: Check, prog: Program) -> None:
+    """VALID-SUBJECT: what validate_method returns is the mapping of bound arguments (the dispatcher calls the method with it)."""
+    from ..flow import Flow
+    n_v = 0
+    for cq in ('pjrpc.server.validators.base.BaseValidator', 'pjrpc.server.validators.jsonschema.JsonSchemaValidator',
+               'pjrpc.server.validators.pydantic.PydanticValidator'):
+        ci = prog.classes.get(cq)
+        vm = ci.methods.get('validate_method') if ci is not None else None
+        if vm is None:
+            continue
+        n_v += 1
+        ck.functions.add(vm.qualname)
+        cfg = CFG(vm, prog)
+        fl = Flow(cfg)
+        bad = []
+        for n in cfg.stmt_nodes():
+            if n.kind == 'stmt' and isinstance(n.ast, ast.Return):
+                if n.ast.value is None:
+                    bad.append((n.line, 'return'))
+                    continue
+                for al in fl.alts(n, n.ast.value):
+                    if isinstance(al.expr, ast.Constant):
+                        bad.append((n.line, norm(n.ast)))
+        falls = cfg.exit.id in cfg.reachable(cfg.entry, avoid_nodes=[m for m in cfg.stmt_nodes() if isinstance(m.ast, (ast.Return, ast.Raise))],
+                                             edge_ok=lambda e: e.label != 'exc')
+        ck.ob('VALID-SUBJECT', f'{ci.name}.validate_method returns the bound arguments on every accepting path', not bad and not falls)
+        for line, txt in bad + ([(vm.node.lineno, 'falling off the end')] if falls else []):
+            ck.finding('VALID-SUBJECT', vm.qualname, f'validate_method returns a constant: {txt[:30]}', vm.module.rel, line,
+                       f'`{txt}`: validate_method must return the mapping of bound arguments — the dispatcher splats it into the method call, so a '
+                       f'conforming call is answered -32603 / executed without its arguments')
+    ck.require('VALID-SUBJECT', 'validate_method implementations', n_v, 3)
 
 
 def _pyd_validate_method(prog: Program):
